@@ -4,8 +4,12 @@ C04 — property theorems (timeout control: deadlines only shrink, outcomes are 
   A. deadlines     `deadline_only_shrinks_{rest,srv,cli,fx}` + the enable conditions (exemptions, pass-through)
   B. REST          `response_all_or_nothing`, `complete_is_spec`, `nothing_of_the_work_before_return`,
                    `no_write_after_timeout`, `response_stable_after_return`, `timeout_branch_always_enabled`
-                   — for every handler script without `Flush`, every schedule, every moment of expiry
-                   `flush_*` : what the unguarded `Flush` does (witnesses; outside the quantified behaviours)
+                   — for every handler script without `Flush`, every schedule, every moment of expiry;
+                   for EVERY script (Flush included, fixed Flush): `response_with_flush`, `no_write_after_timeout`,
+                   `response_stable_after_return`, `reraised_panic_is_handlers`, `timeout_taken_never_reraises`
+                   `flush_*`, `hijack_*` : witnesses of the pinned behaviour (findings) and the fixed one
+  A'. wiring       `route_timeout_wiring`, `route_deadline_only_shrinks`, `engine_timeout_is_max` (rest engine),
+                   `deadline_only_shrinks_{srv,cli}_wired` (zrpc configuration)
   C. zRPC / fx     `rpc_result_or_timeout`, `fx_result_or_timeout`, `*_timeout_always_enabled`
 
 PARTIAL (runtime, not provable about a model): that the Go scheduler runs ServeHTTP's goroutine when its
@@ -294,7 +298,7 @@ theorem response_all_or_nothing (reason : List Nat) (script : List Act) (hnf : N
     | .retTimeout k => s.w = timeoutResp reason k ∧ s.tw.timedOut = true
     | .panicked _ => s.w = Rec.init
     | _ => True := by
-  have hi := inv_reachable hnf hr
+  have hi := inv_reachable hr
   have h7 := hi.w_pc
   have h9 := hi.to_pc
   have hscr := hi.scr
@@ -303,59 +307,22 @@ theorem response_all_or_nothing (reason : List Nat) (script : List Act) (hnf : N
   split
   · rename_i hpc
     rw [hpc] at h7
-    have hfin := retDone_finished hnf hr hpc
-    rw [hscr] at h7 hfin
-    exact ⟨h7, hfin⟩
+    have hfin := hi.rd_fin hpc
+    have hall := hi.fin_all hfin
+    rw [hscr] at h7 hall
+    rw [runI_noFlush script hnf] at h7
+    exact ⟨h7, hall, hfin⟩
   · rename_i k hpc
     rw [hpc] at h7 h9
-    exact ⟨h7, h9⟩
+    obtain ⟨j, _, hw⟩ := h7
+    rw [hscr, runI_noFlush _ (noFlush_take hnf j)] at hw
+    exact ⟨hw, h9⟩
   · rename_i v hpc
     rw [hpc] at h7
+    rw [hscr, runI_noFlush _ (noFlush_take hnf _)] at h7
     exact h7
   · trivial
 where
-  retDone_finished {reason : List Nat} {script : List Act} (hnf : NoFlush script) {s : St}
-      (hr : Reachable reason script s) (hpc : s.pc = .retDone) :
-      s.hpc = s.script.length ∧ s.hst = .finished := by
-    induction hr with
-    | init => simp [St.init] at hpc
-    | step l hprev hs ih =>
-      rename_i s0 s1
-      have hi0 := inv_reachable hnf hprev
-      cases l with
-      | h =>
-        -- a handler step does not change pc, and a finished handler does not step
-        have hpc0 : s0.pc = .retDone := by
-          have : s1.pc = s0.pc := hstep_pc hs
-          rw [← this]; exact hpc
-        have := ih hpc0
-        simp only [step, hstep, this.2] at hs
-        cases hs
-      | env k =>
-        simp only [step] at hs
-        split at hs <;> cases hs
-        exact ih hpc
-      | mPanic =>
-        simp only [step] at hs
-        split at hs <;> cases hs
-        cases hpc
-      | mDone =>
-        simp only [step] at hs
-        split at hs
-        · split at hs
-          · rename_i hd
-            cases hs
-            have hf := hi0.done_fin.mp hd
-            exact ⟨hi0.fin_all hf, hf⟩
-          · cases hs
-        · cases hs
-      | mTimeout =>
-        simp only [step] at hs
-        split at hs <;> cases hs
-        cases hpc
-      | mAdv =>
-        simp only [step] at hs
-        split at hs <;> cases hs <;> cases hpc
   hstep_pc {reason : List Nat} {s s' : St} (h : step reason s .h = some s') : s'.pc = s.pc := by
     simp only [step, hstep] at h
     split at h
@@ -374,6 +341,59 @@ where
       · split at h
         · cases h
         · cases h; unfold lockedAct; split <;> rfl
+
+/-- **Every script, `Flush` included** (fixed `Flush`).  `runI l` is the handler's first actions `l` run on their own:
+its first component is what the work itself has flushed to the client.  Once ServeHTTP has come back the real writer
+holds: the complete streamed result (done branch); or what the work had flushed by some moment `j` followed by the
+timeout response (the 503/499 status only takes effect if nothing had been flushed); or, with the panic re-raised,
+only what the work had flushed.  Nothing of the *buffered* part of the work is ever mixed with the timeout response. -/
+theorem response_with_flush (reason : List Nat) (script : List Act) (s : St) (hr : Reachable reason script s) :
+    match s.pc with
+    | .retDone => s.w = doneBranch (runI script).1 (runI script).2 ∧ s.hst = .finished
+    | .retTimeout k => ∃ j, j ≤ script.length ∧ s.tw.timedOut = true ∧
+        s.w = ((runI (script.take j)).1.writeHeader (statusOf k)).write reason
+    | .panicked _ => ∃ j, j ≤ script.length ∧ s.w = (runI (script.take j)).1
+    | _ => True := by
+  have hi := inv_reachable hr
+  have h7 := hi.w_pc
+  have h9 := hi.to_pc
+  have hle := hi.hpc_le
+  unfold wOfPc at h7
+  unfold timedOutOfPc at h9
+  rw [hi.scr] at h7 hle
+  split
+  · rename_i hpc
+    rw [hpc] at h7
+    exact ⟨h7, hi.rd_fin hpc⟩
+  · rename_i k hpc
+    rw [hpc] at h7 h9
+    obtain ⟨j, hj, hw⟩ := h7
+    exact ⟨j, by omega, h9, hw⟩
+  · rename_i v hpc
+    rw [hpc] at h7
+    exact ⟨s.hpc, hle, h7⟩
+  · trivial
+
+/-- what the work has flushed is nothing unless it called `Flush` -/
+theorem nothing_flushed_without_flush (l : List Act) (hnf : ∀ a ∈ l, a ≠ Act.flush) : (runI l).1 = Rec.init := by
+  rw [runI_noFlush l hnf]
+
+/-- streaming: status 404 + header + first chunk flushed, the deadline comes before the second chunk is flushed:
+the client keeps 404/{1:7}/"a" and gets the reason behind it; the buffered "b" is dropped -/
+example :
+    (runLabels [82, 84] (St.init [.setHeader 1 7, .writeHeader 404, .write [97], .flush, .write [98]])
+      [.h, .h, .h, .h, .h, .env .deadline, .mTimeout, .mAdv, .mAdv, .mAdv]).map (fun s => s.w.view) =
+    some (404, [(1, 7)], [97, 82, 84]) := by decide
+/-- the monitor's streaming semantics (`Spec.completeF`, `Spec.streamedPrefix`) agree with the model on samples -/
+example :
+    Spec.ofRec (doneBranch (runI [.setHeader 1 7, .writeHeader 404, .write [97], .flush, .setHeader 2 3, .write [98]]).1
+      (runI [.setHeader 1 7, .writeHeader 404, .write [97], .flush, .setHeader 2 3, .write [98]]).2) =
+    Spec.completeF [.setHeader 1 7, .writeHeader 404, .write [97], .flush, .setHeader 2 3, .write [98]] := by decide
+example :
+    some (Spec.ofRec (runI [.write [97], .flush, .writeHeader 500, .write [98], .flush, .write [99]]).1) =
+    Spec.streamedPrefix [.write [97], .flush, .writeHeader 500, .write [98], .flush, .write [99]] 6 := by decide
+example : Spec.completeF [.setHeader 2 1, .setHeader 1 7, .writeHeader 201, .write [97], .write [98]] =
+    Spec.complete [.setHeader 2 1, .setHeader 1 7, .writeHeader 201, .write [97], .write [98]] := by decide
 
 /-- the complete result is what the abstract specification says: status = the first `WriteHeader` (200 if a
 `Write` comes first or nothing is written), header `k` = the last `Header().Set(k, ·)` of the script, body = all
@@ -410,17 +430,21 @@ theorem nothing_of_the_work_before_return (reason : List Nat) (script : List Act
     | .t2 k => s.w = Rec.init.writeHeader (statusOf k)
     | .t3 k => s.w = timeoutResp reason k
     | _ => True := by
-  have h7 := (inv_reachable hnf hr).w_pc
+  have hi := inv_reachable hr
+  have h7 := hi.w_pc
+  have hw : (runI (s.script.take s.hpc)).1 = Rec.init := by
+    rw [hi.scr, runI_noFlush _ (noFlush_take hnf _)]
   unfold wOfPc at h7
-  split <;> simp_all
+  rw [hw] at h7
+  split <;> simp_all [timeoutResp]
 
 /-- **No write after the timeout.**  Once `timedOut` is set, no step of anybody changes the real writer or the
 buffered body/status, and a `Write` of the handler returns `ErrHandlerTimeout`. -/
-theorem no_write_after_timeout (reason : List Nat) (script : List Act) (hnf : NoFlush script) (s s' : St)
+theorem no_write_after_timeout (reason : List Nat) (script : List Act) (s s' : St)
     (hr : Reachable reason script s) (hto : s.tw.timedOut = true) (l : Label) (hs : step reason s l = some s') :
     s'.w = s.w ∧ s'.tw.wbuf = s.tw.wbuf ∧ s'.tw.code = s.tw.code ∧ s'.tw.timedOut = true ∧
     (∀ b, l = .h → s.script[s.hpc]? = some (.write b) → s'.log = s.log ++ [.errTimeout]) := by
-  have hi := inv_reachable hnf hr
+  have hi := inv_reachable hr
   have h9 := hi.to_pc
   have hpc : ∃ k, s.pc = .retTimeout k := by
     unfold timedOutOfPc at h9
@@ -438,7 +462,17 @@ theorem no_write_after_timeout (reason : List Nat) (script : List Act) (hnf : No
       · rename_i hg
         cases hs
         exact ⟨rfl, rfl, rfl, hto, fun b _ hb => by rw [hg] at hb; cases hb⟩
-      · rename_i hg; exact absurd rfl (hnf _ (hi.scr ▸ mem_of_get hg))
+      · -- Flush after the timeout: nothing (it only waits for the lock)
+        rename_i hg
+        split at hs
+        · cases hs
+        · first
+          | (cases hs
+             exact ⟨rfl, rfl, rfl, hto, fun b _ hb => by rw [hg] at hb; cases hb⟩)
+          | (split at hs
+             · cases hs
+               exact ⟨rfl, rfl, rfl, hto, fun b _ hb => by rw [hg] at hb; cases hb⟩
+             · rename_i hnto; exact absurd hto hnto)
       · rename_i hg
         cases hs
         exact ⟨rfl, rfl, rfl, hto, fun b _ hb => by rw [hg] at hb; cases hb⟩
@@ -477,7 +511,7 @@ def Returned (s : St) : Prop :=
 
 /-- **Nothing reaches the client after the wrapper returned**: whatever the handler goroutine (or the
 context) does later, the response stays what it was. -/
-theorem response_stable_after_return (reason : List Nat) (script : List Act) (hnf : NoFlush script) (s : St)
+theorem response_stable_after_return (reason : List Nat) (script : List Act) (s : St)
     (hr : Reachable reason script s) (hret : Returned s) (ls : List Label) (s' : St)
     (hrun : runLabels reason s ls = some s') : s'.w = s.w ∧ s'.pc = s.pc := by
   induction ls generalizing s with
@@ -487,16 +521,26 @@ theorem response_stable_after_return (reason : List Nat) (script : List Act) (hn
     split at hrun
     · rename_i s1 hs
       have h1 : s1.w = s.w ∧ s1.pc = s.pc := by
-        have hi := inv_reachable hnf hr
+        have hi := inv_reachable hr
         cases l with
         | h =>
           simp only [step, hstep] at hs
           split at hs
           · cases hs
           · cases hs
-          · split at hs
+          · rename_i hrun
+            split at hs
             · cases hs; exact ⟨rfl, rfl⟩
-            · rename_i hg; exact absurd rfl (hnf _ (hi.scr ▸ mem_of_get hg))
+            · -- Flush: not while the lock is held; nothing once timed out; and a handler that is still running with
+              -- the lock free and no timeout means ServeHTTP is still in its select — it has not returned
+              split at hs
+              · cases hs
+              · rename_i hmu
+                split at hs
+                · cases hs; exact ⟨rfl, rfl⟩
+                · rename_i hto
+                  have hsel := pc_select_of_running hi hrun (by simpa using hmu) (by simpa using hto)
+                  unfold Returned at hret; rw [hsel] at hret; exact hret.elim
             · cases hs; exact ⟨rfl, rfl⟩
             · cases hs; exact ⟨rfl, rfl⟩
             · split at hs
@@ -756,12 +800,13 @@ theorem hijack_refused_after_timeout (t : TW) (supported : Bool) :
   cases t.timedOut <;> simp
 
 /-- in every reachable state in which ServeHTTP has returned through the timeout branch, `Hijack` is refused -/
-theorem hijack_refused_after_timeout_return (reason : List Nat) (script : List Act) (hnf : NoFlush script) (s : St)
+theorem hijack_refused_after_timeout_return (reason : List Nat) (script : List Act) (s : St)
     (hr : Reachable reason script s) (k : Kind) (hpc : s.pc = .retTimeout k) (supported : Bool) :
     hijack s.tw supported = .refused := by
-  have h := response_all_or_nothing reason script hnf s hr
+  have h := (inv_reachable hr).to_pc
+  unfold timedOutOfPc at h
   rw [hpc] at h
-  exact (hijack_refused_after_timeout s.tw supported).1 h.2
+  exact (hijack_refused_after_timeout s.tw supported).1 h
 
 /-- PINNED witness (real code: `hij sup deadline after => hijack=ok`): after the timeout the connection is handed over -/
 theorem hijack_after_timeout_pinned :
